@@ -256,6 +256,7 @@ def validate_externals(maxlen=8, join_maxlen=4, alphabet=b'/.a'):
 
 pp_normpath = z3.Function('pp_normpath', BytesS, BytesS)
 pp_npbody = z3.Function('pp_npbody', BytesS, BytesS)        # normpath(p) without its leading slashes (absolute p)
+pp_joinfold = z3.Function('pp_joinfold', BytesS, z3.SeqSort(BytesS), BytesS)      # posixpath.join(a, *items)
 pp_basename = z3.Function('pp_basename', BytesS, BytesS)
 pp_dirname = z3.Function('pp_dirname', BytesS, BytesS)
 
@@ -301,6 +302,16 @@ def m_join(ex, s, args, kw, node):
     """posixpath.join(a, *p) on bytes: left fold of the exact two-argument contract (one path per case)"""
     from pyvc.engine import Raised
     out = []
+    star = None
+    if args and isinstance(args[-1], tuple) and args[-1][0] == 'star':
+        # join(a, b, *rest) with a symbolic list `rest` of bytes: the left fold unfolded once at its LAST element,
+        #   join(x, *rest) == x                                      if rest is empty
+        #   join(x, *rest) == join(join(x, *rest[:-1]), rest[-1])    otherwise   (definition of the fold)
+        # where join(x, *rest[:-1]) is the uninterpreted pp_joinfold(x, rest[:-1])
+        star = args[-1][1]
+        args = args[:-1]
+        if not (isinstance(star, VSeq) and star.elem.kind == 'bytes'):
+            raise Unsupported(f'posixpath.join(*{star!r})')
     for s1, vals in _bytes_args(ex, s, args, node):
         if isinstance(vals, Raised):
             out.append((s1, vals))
@@ -310,6 +321,17 @@ def m_join(ex, s, args, kw, node):
             nxt = []
             for s2, az in cur:
                 nxt.extend(_join2(ex, s2, az, b.z, node))
+            cur = nxt
+        if star is not None:
+            nxt = []
+            n = z3.Length(star.z)
+            for s2, az in cur:
+                for s3, empty in ex.branch(s2, n == 0, node):
+                    if empty:
+                        nxt.append((s3, az))
+                    else:
+                        init = z3.Extract(star.z, z3.IntVal(0), n - 1)
+                        nxt.extend(_join2(ex, s3, pp_joinfold(az, init), star.z[n - 1], node))
             cur = nxt
         out.extend((s2, VBytes(z)) for s2, z in cur)
     return out
@@ -412,7 +434,8 @@ def register():
                          'posixpath.join': m_join, 'posixpath.normpath': m_normpath,
                          'posixpath.basename': m_basename, 'posixpath.dirname': m_dirname,
                          'posixpath.isabs': m_isabs})
-    replay.REAL_IMPLS.update({'pp_normpath': lambda p: posixpath.normpath(bytes(p)),
+    replay.REAL_IMPLS.update({'pp_joinfold': lambda a, items: posixpath.join(bytes(a), *[bytes(i) for i in items]),
+                              'pp_normpath': lambda p: posixpath.normpath(bytes(p)),
                               'pp_npbody': _real_npbody,
                               'pp_basename': lambda p: posixpath.basename(bytes(p)),
                               'pp_dirname': lambda p: posixpath.dirname(bytes(p))})
